@@ -18,7 +18,7 @@ from . import core
 _PRE = """
 import sys, json, warnings
 warnings.filterwarnings('ignore')
-sys.path.insert(0, %r)
+sys.path.insert(0, %r); sys.path.insert(0, %r)
 OK = None; OBSERVED = ''
 try:
 %s
@@ -31,7 +31,7 @@ print('@@REPLAY@@' + json.dumps({'ok': OK, 'observed': str(OBSERVED)[:2000]}))
 
 def run_code(code: str, timeout: float = 120.0):
     body = "\n".join("    " + l for l in code.strip("\n").split("\n"))
-    prog = _PRE % (core.SRC, body)
+    prog = _PRE % (core.ROOT, core.SRC, body)
     try:
         p = subprocess.run([sys.executable, "-c", prog], capture_output=True, text=True, timeout=timeout)
     except subprocess.TimeoutExpired:
